@@ -107,8 +107,8 @@ func (f *Divide) Call(s *slip.Scope, args slip.List, depth int) (quot slip.Objec
 			if ta == 0 {
 				slip.DivisionByZeroPanic(s, depth, slip.Symbol("/"), args, "divide by zero")
 			}
-			if quot.(slip.Fixnum)%ta == 0 {
-				quot = quot.(slip.Fixnum) / ta
+			if q, r := divideFixnums(quot.(slip.Fixnum), ta); r == slip.Fixnum(0) {
+				quot = q
 			} else {
 				quot = (*slip.Ratio)(big.NewRat(int64(quot.(slip.Fixnum)), int64(ta)))
 			}
